@@ -24,3 +24,17 @@ Definition cont_set (c : cont) (len cap : N) : cont := mkCont (cptr c) len cap.
 Record boxbytes : Type := mkBB { bb_ptr : N; bb_layout : layout }.
 (* Box::from_raw(address as *mut T): a Box of one T *)
 Definition cont_of_addr (p : N) : cont := mkCont p 1 1.
+
+(* ---- the zero-initialising allocators ---- *)
+(* NonNull::dangling(): not an address of the model's memory, a marker for "nothing allocated" *)
+Definition DANGLING : N := 2 ^ 64.
+(* alloc::alloc::alloc_zeroed(layout): the allocator's answer comes from the environment *)
+Definition alloc_zeroed_m (E : env) (l : layout) : N := heap E (l_size l) (l_align l).
+(* Layout::array::<T>(n): Err when n * size, rounded up to the alignment, exceeds isize::MAX *)
+Definition layout_array_m (T : ty) (n : N) : result layout unit :=
+  if n * sz T <=? ISIZE_MAX - (al T - 1) then Ok (mkLayout (n * sz T) (al T)) else Err tt.
+(* Vec::new(): no allocation; a Vec of zero-sized elements reports capacity usize::MAX *)
+Definition vec_new (T : ty) : cont := mkCont DANGLING 0 (if sz T =? 0 then USIZE_MAX else 0).
+(* Box<[T]>::into_vec(): the same block, capacity = length *)
+Definition box_into_vec (T : ty) (c : cont) : cont :=
+  mkCont (cptr c) (clen c) (if sz T =? 0 then USIZE_MAX else clen c).
